@@ -1,4 +1,5 @@
 import Proofs.C13
+import Proofs.C13Streams
 /-!
 # C13 — output reaches each destination completely, in order, exactly once
 
@@ -84,10 +85,6 @@ theorem append_never_truncates (b : Beh) (s : St) (n : Name) (c : Bytes) (h : fi
 
 /-! ### at close the destination holds everything -/
 
-/-- entry invariant of a stream (kept by every operation; validated on the real code by correspondence) -/
-def EntryOK (fs : List (Name × Bytes)) (n : Name) (st : Stream) : Prop :=
-  (st.kind = .file → content fs n ++ st.buf = st.base ++ st.log) ∧ (st.kind = .cmd → st.sent ++ st.buf = st.log)
-
 /-- closing a file: its content is (what it held right after the open) ++ (every write since, in order) -/
 theorem file_content_at_close (b : Beh) (s : St) (n : Name) (st : Stream) (h : find n s.streams = some st)
     (hk : st.kind = .file) (hi : EntryOK s.fs n st) :
@@ -120,6 +117,163 @@ theorem entry_ok_deliver (s : St) (n : Name) (st : Stream) (h : EntryOK s.fs n s
   | file => simp [EntryOK, content_set_self, h1 hk]
   | cmd => simp [EntryOK, ← h2 hk]
   | rd => simp [EntryOK, hk]
+
+/-! ### whole histories: files, commands, one name — one stream
+
+`after b s ops` is the state after executing `ops`; `run_ends_with_closeAll` says a run's final state is `finish` (closeAll)
+of `after` of the operations that were executed — all of them, or up to and including the `exit` / failing operation. The
+invariant `SInv` (distinct keys in the stream table + what each stream's buffers owe its destination) holds in the initial
+state and after every history. `writesTo n ops` is the concatenation, in program order, of everything `ops` print to the name
+`n` through any redirect. -/
+
+theorem inv_always (b : Beh) (buffered : Bool) (failAt : Option Nat) (fs : List (Name × Bytes)) (ops : List Op) :
+    SInv (after b (St.init buffered failAt fs) ops) :=
+  after_sinv b ops _ (sinv_init buffered failAt fs)
+
+theorem run_ends_with_closeAll (b : Beh) (s : St) (ops : List Op) :
+    ∃ pre, pre <+: ops ∧ (run b s ops).2.2 = finish b (after b s pre) :=
+  run_final b ops s
+
+/-- One name denotes one open stream until close(): from the moment `n` is open for output, through any history that does not
+contain `close(n)` — prints to `n` by `>`, `>>` or `|`, prints elsewhere, flushes, system, getline, closes of other names —
+`n` is still the same stream (same kind, same starting content) and its log is the old log followed by exactly the writes
+to `n`, in order. -/
+theorem one_stream_until_close (b : Beh) (s : St) (n : Name) (st : Stream) (ops : List Op)
+    (h : find n s.streams = some st) (hk : st.kind ≠ .rd) (hc : (Op.close n) ∉ ops) :
+    ∃ st', find n (after b s ops).streams = some st' ∧ st'.kind = st.kind ∧ st'.base = st.base ∧
+      st'.log = st.log ++ writesTo n ops :=
+  after_entry b n ops s st h hk hc
+
+private theorem open_file_entry (b : Beh) (s : St) (r : Redir) (n : Name) (c0 : Bytes) (hr : r ≠ .pipe)
+    (hn : find n s.streams = none) (h1 : n ≠ dash) (h2 : n ≠ devStderr) (h3 : n ≠ devStdout) :
+    find n (step b s (.printTo r n c0)).1.streams =
+      some { kind := .file, buf := c0, sent := [], base := if r = .gt then [] else content s.fs n, log := c0 } := by
+  have ff := flushOut_frame' s
+  simp [step, hn, hr, h1, h2, h3, find_cons, ff.2.1]
+
+/-- file_content, at close: open `n` with `>` or `>>` (it was not open), run ANY history without `close(n)`, then `close(n)`:
+the file holds (nothing, if opened with `>`; else what it held) ++ the first write ++ every later write to `n` in program
+order — whichever redirect those later writes used (trunc_once), and close returns 0. -/
+theorem file_content (b : Beh) (s : St) (hs : SInv s) (r : Redir) (n : Name) (c0 : Bytes) (ops : List Op)
+    (hr : r ≠ .pipe) (hn : find n s.streams = none) (h1 : n ≠ dash) (h2 : n ≠ devStderr) (h3 : n ≠ devStdout)
+    (hc : (Op.close n) ∉ ops) :
+    content (after b s (.printTo r n c0 :: ops ++ [.close n])).fs n =
+      (if r = .gt then [] else content s.fs n) ++ c0 ++ writesTo n ops := by
+  have e0 := open_file_entry b s r n c0 hr hn h1 h2 h3
+  obtain ⟨st', hf, hk, hb, hl⟩ := after_entry b n ops _ _ e0 (by simp) hc
+  have hs2 : SInv (after b (step b s (.printTo r n c0)).1 ops) := after_sinv b ops _ (step_sinv b s _ hs)
+  have hc := file_content_at_close b _ n st' hf hk (hs2.ok n st' hf)
+  simp only [List.cons_append, after, after_append]
+  rw [hc.1, hb, hl, List.append_assoc]
+
+/-- file_content, at end of run: the same when the stream is still open when the run ends -/
+theorem file_content_end (b : Beh) (s : St) (hs : SInv s) (r : Redir) (n : Name) (c0 : Bytes) (ops : List Op)
+    (hr : r ≠ .pipe) (hn : find n s.streams = none) (h1 : n ≠ dash) (h2 : n ≠ devStderr) (h3 : n ≠ devStdout)
+    (hc : (Op.close n) ∉ ops) :
+    content (finish b (after b s (.printTo r n c0 :: ops))).fs n =
+      (if r = .gt then [] else content s.fs n) ++ c0 ++ writesTo n ops := by
+  have e0 := open_file_entry b s r n c0 hr hn h1 h2 h3
+  obtain ⟨st', hf, hk, hb, hl⟩ := after_entry b n ops _ _ e0 (by simp) hc
+  have hs2 : SInv (after b (step b s (.printTo r n c0)).1 ops) := after_sinv b ops _ (step_sinv b s _ hs)
+  have hfin := (finish_entries b _ hs2 n st' hf).1 hk
+  simp only [after]
+  rw [hfin, hb, hl, List.append_assoc]
+
+/-- … for a whole run from the initial state, however it ends (operations exhausted, `exit`, run-time error): whenever the
+executed part of the history is `before ++ [open n] ++ ops` with `n` not open after `before` and no `close(n)` in `ops`, the
+final file system holds the expected bytes under `n`. -/
+theorem file_content_run (b : Beh) (buffered : Bool) (failAt : Option Nat) (fs : List (Name × Bytes)) (all : List Op) :
+    ∃ pre, pre <+: all ∧ ∀ (before ops : List Op) (r : Redir) (n : Name) (c0 : Bytes),
+      pre = before ++ .printTo r n c0 :: ops → r ≠ .pipe →
+      find n (after b (St.init buffered failAt fs) before).streams = none → n ≠ dash → n ≠ devStderr → n ≠ devStdout →
+      (Op.close n) ∉ ops →
+      content (run b (St.init buffered failAt fs) all).2.2.fs n =
+        (if r = .gt then [] else content (after b (St.init buffered failAt fs) before).fs n) ++ c0 ++ writesTo n ops := by
+  obtain ⟨pre, hp, he⟩ := run_final b all (St.init buffered failAt fs)
+  refine ⟨pre, hp, ?_⟩
+  intro before ops r n c0 hpre hr hn h1 h2 h3 hc
+  rw [he, hpre, after_append]
+  exact file_content_end b _ (inv_always b buffered failAt fs before) r n c0 ops hr hn h1 h2 h3 hc
+
+private theorem open_cmd_entry (b : Beh) (s : St) (n : Name) (c0 : Bytes) (hn : find n s.streams = none) :
+    find n (step b s (.printTo .pipe n c0)).1.streams = some { kind := .cmd, buf := c0, sent := [], base := [], log := c0 } := by
+  simp [step, hn, find_cons]
+
+/-- cmd_gets_everything + "close() reports the command's exit status", for whole histories: start a command with `| n`, run
+ANY history without `close(n)`, then `close(n)`: the command is run on exactly the first write followed by every later write
+to `n` in program order, that is appended to the process log, and close returns the command's exit status. -/
+theorem cmd_gets_everything_history (b : Beh) (s : St) (hs : SInv s) (n : Name) (c0 : Bytes) (ops : List Op)
+    (hn : find n s.streams = none) (hc : (Op.close n) ∉ ops) :
+    let s' := after b s (.printTo .pipe n c0 :: ops)
+    let input := c0 ++ writesTo n ops
+    (step b s' (.close n)).2 = .num (b.pipe n input).2 ∧
+    (step b s' (.close n)).1.procs = s'.procs ++ [(n, input, (b.pipe n input).2)] := by
+  have e0 := open_cmd_entry b s n c0 hn
+  obtain ⟨st', hf, hk, _, hl⟩ := after_entry b n ops _ _ e0 (by simp) hc
+  have hs2 : SInv (after b (step b s (.printTo .pipe n c0)).1 ops) := after_sinv b ops _ (step_sinv b s _ hs)
+  have h := cmd_gets_everything b _ n st' hf hk (hs2.ok n st' hf)
+  simp only [after]
+  rw [← hl]
+  exact h
+
+theorem close_reports_status (b : Beh) (s : St) (hs : SInv s) (n : Name) (c0 : Bytes) (ops : List Op)
+    (hn : find n s.streams = none) (hc : (Op.close n) ∉ ops) :
+    (step b (after b s (.printTo .pipe n c0 :: ops)) (.close n)).2 = .num (b.pipe n (c0 ++ writesTo n ops)).2 :=
+  (cmd_gets_everything_history b s hs n c0 ops hn hc).1
+
+/-- … and when the command is still open at the end of the run, `closeAll` runs it on exactly the same input -/
+theorem cmd_gets_everything_end (b : Beh) (s : St) (hs : SInv s) (n : Name) (c0 : Bytes) (ops : List Op)
+    (hn : find n s.streams = none) (hc : (Op.close n) ∉ ops) :
+    (n, c0 ++ writesTo n ops, (b.pipe n (c0 ++ writesTo n ops)).2) ∈ (finish b (after b s (.printTo .pipe n c0 :: ops))).procs := by
+  have e0 := open_cmd_entry b s n c0 hn
+  obtain ⟨st', hf, hk, _, hl⟩ := after_entry b n ops _ _ e0 (by simp) hc
+  have hs2 : SInv (after b (step b s (.printTo .pipe n c0)).1 ops) := after_sinv b ops _ (step_sinv b s _ hs)
+  have hfin := (finish_entries b _ hs2 n st' hf).2 hk
+  simp only [after]
+  rw [← hl]
+  exact hfin
+
+/-- for a whole run, however it ends -/
+theorem cmd_gets_everything_run (b : Beh) (buffered : Bool) (failAt : Option Nat) (fs : List (Name × Bytes)) (all : List Op) :
+    ∃ pre, pre <+: all ∧ ∀ (before ops : List Op) (n : Name) (c0 : Bytes),
+      pre = before ++ .printTo .pipe n c0 :: ops →
+      find n (after b (St.init buffered failAt fs) before).streams = none → (Op.close n) ∉ ops →
+      (n, c0 ++ writesTo n ops, (b.pipe n (c0 ++ writesTo n ops)).2) ∈ (run b (St.init buffered failAt fs) all).2.2.procs := by
+  obtain ⟨pre, hp, he⟩ := run_final b all (St.init buffered failAt fs)
+  refine ⟨pre, hp, ?_⟩
+  intro before ops n c0 hpre hn hc
+  rw [he, hpre, after_append]
+  exact cmd_gets_everything_end b _ (inv_always b buffered failAt fs before) n c0 ops hn hc
+
+/-- exactly once: `closeAll` adds exactly one process-log entry for a command that is still open at the end of the run (and
+none for a name that is not an open command) -/
+theorem cmd_run_exactly_once_at_end (b : Beh) (s : St) (hs : SInv s) (n : Name) (st : Stream)
+    (h : find n s.streams = some st) (hk : st.kind = .cmd) :
+    ((finish b s).procs.filter (fun p => p.1 = n)).length = (s.procs.filter (fun p => p.1 = n)).length + 1 := by
+  have := finish_count b s n hs
+  simpa [cnt, cmdHere, h, hk] using this
+
+/-- a file that the history never prints to (and that is not open for writing) keeps its content, through the whole history
+and `closeAll` -/
+theorem unopened_files_untouched (b : Beh) (s : St) (ops : List Op) (n : Name) (hs : SInv s)
+    (hn : find n s.streams = none) (hop : ∀ r c, Op.printTo r n c ∉ ops) :
+    content (finish b (after b s ops)).fs n = content s.fs n := by
+  have hw : NotWriter s.streams n := fun st hf => by rw [hn] at hf; cases hf
+  have h1 := after_untouched b n ops s hs hw hop
+  rw [finish_untouched b _ n (after_sinv b ops s hs) h1.1, h1.2]
+
+/-- the process log after `closeAll`, exactly: the old log followed by one entry per command that was still open, in table
+order, each run on exactly its log -/
+theorem closeAll_process_log (b : Beh) (s : St) (hs : SInv s) :
+    (finish b s).procs = s.procs ++ (s.streams.filter (fun p => p.2.kind = .cmd)).map
+      (fun p => (p.1, p.2.log, (b.pipe p.1 p.2.log).2)) :=
+  finish_procs b s hs
+
+/-! What is NOT a theorem here: the clause "output of child processes that share standard output is never lost or corrupted by
+concurrent writes from the program itself". The model runs a command at the moment its stream is closed, when the interpreter
+is blocked in Wait, so it has no concurrent schedule to quantify over; on the real code the clause is false (finding F25,
+replayed by the harness). The only other clause that is false of the code, `StdoutFailureFails` below, is kept as a
+`def … : Prop` with its refutation. -/
 
 /-! ### a failing standard output -/
 
@@ -164,5 +318,21 @@ example : (run nullBeh (St.init true (some 0) []) [.print [120, 10]]).2.1 = .ok 
 example : (run nullBeh (St.init false (some 0) []) [.print [120, 10]]).2.1 = .error .stdoutWrite := by decide
 example : EntryOK [([102], [120])] [102] { kind := .file, buf := [121], sent := [], base := [], log := [120, 121] } := by
   simp [EntryOK, content, find]
+
+
+def winOps : List Op := [.printTo .pipe [102] [121], .fflushAll, .print [97], .close [103], .printTo .app [102] [122], .system [115]]
+
+example : SInv (St.init true none [([102], [111])]) := sinv_init _ _ _
+example : find [102] (St.init true none [([102], [111])]).streams = none ∧ (Op.close [102]) ∉ winOps := by decide
+example : writesTo [102] winOps = [121, 122] := by decide
+example : content (after echoBeh (St.init true none [([102], [111])]) (.printTo .gt [102] [120] :: winOps ++ [.close [102]])).fs [102] =
+    [120, 121, 122] := by decide
+example : content (after echoBeh (St.init true none [([102], [111])]) (.printTo .app [102] [120] :: winOps ++ [.close [102]])).fs [102] =
+    [111, 120, 121, 122] := by decide
+example : content (finish echoBeh (after echoBeh (St.init true none [([102], [111])]) (.printTo .gt [102] [120] :: winOps))).fs [102] =
+    [120, 121, 122] := by decide
+example : (step echoBeh (after echoBeh (St.init false none []) (.printTo .pipe [102] [120] :: winOps)) (.close [102])).2 = .num 7 := by decide
+example : (finish echoBeh (after echoBeh (St.init false none []) (.printTo .pipe [102] [120] :: winOps))).procs =
+    [([115], [], 0), ([102], [120, 121, 122], 7)] := by decide
 
 end GoawkModel.C13.Props
